@@ -124,9 +124,16 @@ def run_legacy(depths, workers, parallel):
     VP = _vpay()
     payloads = [VP(path=Path(f'd{d}x{i}'), payload=None) for i, d in enumerate(depths)]
     want = Counter((f'd{d}x{i}', d, None) for i, d in enumerate(depths))
+    from vf.core import CaseTimeout, watchdog
     try:
-        got = Counter((r.payload.path.name, r.outcome, type(r.exception).__name__ if r.exception is not None else None)
-                      for r in parproc(work_legacy, payloads, parallel=parallel, max_workers=workers))
+        with watchdog(60):
+            got = Counter((r.payload.path.name, r.outcome, type(r.exception).__name__ if r.exception is not None else None)
+                          for r in parproc(work_legacy, payloads, parallel=parallel, max_workers=workers))
+    except CaseTimeout:
+        import multiprocessing
+        for c in multiprocessing.active_children():
+            c.kill()
+        return dict(bucket='legacy:blocked', oracle='the loop yields one result per payload (none within 60 s)', depths=depths, parallel=parallel)
     except BaseException as e:  # noqa: BLE001 - RecursionError / RuntimeError escaping the loop is the failure looked for
         return dict(bucket=f'legacy:raises:{type(e).__name__}', oracle='the loop yields one result per payload (deep recursion inside a task is the task\'s business)',
                     observed=str(e)[:200], depths=depths, parallel=parallel)
@@ -393,8 +400,15 @@ def run_after_interrupt(spec, pickable, parallel=False, workers=2):
         interrupted = True
     pk = repr if pickable == 'repr' else None
     kw = dict(pickable=pk) if pk else {}
+    from vf.core import CaseTimeout, watchdog
     try:
-        got = [key_of(r) for r in parproc(work, make_payloads(spec), parallel=parallel, max_workers=workers, **kw)]
+        with watchdog(30):
+            got = [key_of(r) for r in parproc(work, make_payloads(spec), parallel=parallel, max_workers=workers, **kw)]
+    except CaseTimeout:
+        import multiprocessing
+        for c in multiprocessing.active_children():
+            c.kill()
+        return dict(bucket='after-interrupt:blocked', oracle='a run after an interrupted earlier run yields its results (none within 30 s for <= 7 tiny tasks)', spec=spec, parallel=parallel), interrupted
     except Exception as e:
         return dict(bucket=f'after-interrupt:raises:{type(e).__name__}', oracle='a run after an interrupted earlier run yields results', observed=str(e)[:200], spec=spec), interrupted
     pkf = repr if pickable == 'repr' else (lambda x: x)
